@@ -457,6 +457,13 @@ func c20SubscriberStack(r *Run) {
 	if inner.Closes != 1 {
 		r.Fail("C20.R2", "Close did not pass through the subscriber decorators exactly once", "inner Close calls: %d", inner.Closes)
 	}
+	// the message the consumer held back is settled only now, after Close: it is a settled received message all the same
+	if holdAt >= 0 && holdAt < len(got) {
+		r.Fault("settled-after-close")
+		acks++
+		got[holdAt].Ack()
+		r.Sim.Quiesce()
+	}
 	if len(got) > len(inner.Deliveries) || (len(got) != len(inner.Deliveries) && cancelAt < 0 && holdAt < 0) {
 		r.Fail("C20.R1", "the decorated subscriber did not pass every message exactly once", "received %d, inner emitted %d", len(got), len(inner.Deliveries))
 		return
@@ -472,7 +479,7 @@ func c20SubscriberStack(r *Run) {
 			r.Fail("C20.R1", "messages were reordered or replaced on their way through the subscriber decorators", "position %d: %s vs %s", i, got[i].UUID, d.Msg.UUID)
 			continue
 		}
-		if !d.Settled() && i != holdAt {
+		if !d.Settled() {
 			r.Fail("C20.R1", "settling the received message did not settle the inner subscriber's message", "%s", d.Msg.UUID)
 		}
 		if st := got[i].Metadata.Get("subtrace"); st != strings.Join(tags, ",") {
